@@ -425,6 +425,23 @@ func (g *Gen) genUpdateSell() *eng.Tx {
 	if o == nil {
 		return nil
 	}
+	// orders whose ask denom has since been removed from the allowed list are preferred targets
+	// (re-pricing them in their own denom must be rejected)
+	keepDenom := false
+	if g.chance(0.5) {
+		var stale []*marketapi.SellOrder
+		for _, x := range g.V.OrderList {
+			if mk := g.V.Markets[x.MarketId]; mk != nil && g.V.AllowedDenoms[mk.BankDenom] == nil {
+				stale = append(stale, x)
+			}
+		}
+		if len(stale) > 0 {
+			o = stale[g.R.Intn(len(stale))]
+			keepDenom = true
+			g.quiet = true
+			defer func() { g.quiet = false }()
+		}
+	}
 	seller := obs.Addr(o.Seller)
 	m := &markettypes.MsgUpdateSellOrders{Seller: g.owner(seller)}
 	n := 1 + g.R.Intn(2)
@@ -453,7 +470,7 @@ func (g *Gen) genUpdateSell() *eng.Tx {
 			nq = g.amountUpTo(q)
 		}
 		den := g.askDenom()
-		if mk := g.V.Markets[o.MarketId]; mk != nil && g.chance(0.6) {
+		if mk := g.V.Markets[o.MarketId]; mk != nil && (keepDenom || g.chance(0.6)) {
 			den = mk.BankDenom
 		}
 		c := g.coin(den, g.askAmount())
@@ -505,9 +522,15 @@ func (g *Gen) genBuy() *eng.Tx {
 		buyer = seller
 	}
 	m := &markettypes.MsgBuyDirect{Buyer: buyer}
+	prevDenom := ""
+	crossMarket := false
 	n := 1
 	if g.chance(0.3) {
 		n = 2 + g.R.Intn(2)
+		if g.chance(0.6) {
+			g.quiet = true
+			defer func() { g.quiet = false }()
+		}
 	}
 	for i := 0; i < n; i++ {
 		mk := g.V.Markets[o.MarketId]
@@ -550,9 +573,18 @@ func (g *Gen) genBuy() *eng.Tx {
 			}
 		}
 		den := mk.BankDenom
-		if g.hostile() && g.chance(0.2) {
-			den = g.bankDenom()
+		if crossMarket && prevDenom != "" && prevDenom != mk.BankDenom && g.chance(0.5) {
+			den = prevDenom // the client keeps bidding in the previous entry's denom
+		} else if g.hostile() && g.chance(0.35) {
+			// bid in a foreign denom: the denom of the previous entry of this message (a plausible
+			// client-side confusion) or a random one
+			if prevDenom != "" && prevDenom != mk.BankDenom && g.chance(0.7) {
+				den = prevDenom
+			} else {
+				den = g.bankDenom()
+			}
 		}
+		prevDenom = mk.BankDenom
 		bc := g.coin(den, bid)
 		ord := &markettypes.MsgBuyDirect_Order{SellOrderId: o.Id, Quantity: qty, BidPrice: &bc}
 		ord.DisableAutoRetire = o.DisableAutoRetire && g.chance(0.6)
@@ -597,11 +629,41 @@ func (g *Gen) genBuy() *eng.Tx {
 				ord.MaxFeeAmount = &c
 			}
 		}
+		if den != mk.BankDenom && g.chance(0.8) {
+			// a client that believes the order is priced in `den` also states its max fee in `den`
+			if g.chance(0.3) {
+				ord.MaxFeeAmount = nil
+			} else {
+				c := g.coin(den, new(big.Int).Mul(bid, big.NewInt(1000000)))
+				ord.MaxFeeAmount = &c
+			}
+		}
 		m.Orders = append(m.Orders, ord)
-		// next order: same order again, or another order (possibly another seller)
+		// next order: same order again, or another order (possibly another seller); sometimes
+		// deliberately an order of the same credit type in a DIFFERENT market (other ask denom)
 		if g.chance(0.6) {
-			if o2 := g.order(); o2 != nil && obs.Addr(o2.Seller) != buyer {
-				o = o2
+			var pickd *marketapi.SellOrder
+			if g.chance(0.4) {
+				for k := 0; k < 10; k++ {
+					o2 := g.order()
+					if o2 == nil {
+						break
+					}
+					m2 := g.V.Markets[o2.MarketId]
+					if m2 != nil && m2.CreditTypeAbbrev == mk.CreditTypeAbbrev && m2.BankDenom != mk.BankDenom && obs.Addr(o2.Seller) != buyer {
+						pickd = o2
+						crossMarket = true
+						break
+					}
+				}
+			}
+			if pickd == nil {
+				if o2 := g.order(); o2 != nil && obs.Addr(o2.Seller) != buyer {
+					pickd = o2
+				}
+			}
+			if pickd != nil {
+				o = pickd
 			}
 		}
 	}
